@@ -70,33 +70,34 @@ Proof.
 Qed.
 
 (* what the step needs to know about the operation `o` followed by the suffix `s` *)
-Record op_facts (c : cfg) (l : list sop) (o : sop) (s : list sop) : Prop := {
+Record op_facts (c : cfg) (FR : value -> Z -> Prop) (o : sop) (s : list sop) : Prop := {
   of_nodup_defs : NoDup (defs o);
   of_nodup_fst : NoDup (map fst (s_io o));
   of_use : forall v, In v (uses o) -> ~ In v (defs o) /\ ~ defined_in s v;
   of_def : forall d, In d (defs o) -> ~ defined_in s d;
   of_io_dead : forall x, In x (map fst (s_io o)) -> ~ used_in s x;
   of_io_nz : forall x y, In (x, y) (s_io o) -> ~ In y (zconsts c);
-  of_tied : forall x y, In (x, y) (s_io o) -> tied l x y }.
+  of_tied : forall x y, In (x, y) (s_io o) -> forall r, (FR x r -> FR y r) /\ (FR y r -> FR x r) }.
 
 Section Step.
   Variable c : cfg.
   Variable t0 : value -> option Z.
-  Variable l : list sop.
-  Notation Inv := (Inv c t0 l).
+  Variable FR : value -> Z -> Prop.
+  Hypothesis FR_pre : forall v r, t0 v = Some r -> FR v r.
+  Notation Inv := (Inv c t0 FR).
   Notation Pset := (Pset t0).
 
-  Lemma nodup_pairvals : forall o s, op_facts c l o s -> NoDup (pairvals (s_io o)).
+  Lemma nodup_pairvals : forall o s, op_facts c FR o s -> NoDup (pairvals (s_io o)).
   Proof.
     intros o s F.
     assert (Hs : NoDup (map snd (s_io o))).
-    { pose proof (of_nodup_defs c l o s F) as H. unfold defs, sop_results in H.
+    { pose proof (of_nodup_defs c FR o s F) as H. unfold defs, sop_results in H.
       apply NoDup_app_r in H. exact H. }
-    pose proof (of_nodup_fst c l o s F) as Hf.
+    pose proof (of_nodup_fst c FR o s F) as Hf.
     assert (Hdis : forall x y, In x (map fst (s_io o)) -> In y (map snd (s_io o)) -> x <> y).
     { intros x y Hx Hy Heq. subst y.
       assert (Hu : In x (uses o)). { unfold uses, sop_operands. apply in_or_app. right. exact Hx. }
-      destruct (of_use c l o s F x Hu) as [Hnd _]. apply Hnd.
+      destruct (of_use c FR o s F x Hu) as [Hnd _]. apply Hnd.
       unfold defs, sop_results. apply in_or_app. right. exact Hy. }
     revert Hs Hf Hdis. generalize (s_io o) as ios. induction ios as [|[a b] t IH]; intros Hs Hf Hdis; simpl.
     - constructor.
@@ -114,7 +115,7 @@ Section Step.
   Qed.
 
   Theorem op_step : forall o s a a',
-    op_facts c l o s ->
+    op_facts c FR o s ->
     Inv (live s) Enone (ment s) a ->
     (forall v, live s v -> exists r, ty a v = Some r) ->
     allocate_sop c o a = Ok a' ->
@@ -124,7 +125,8 @@ Section Step.
     /\ (forall d, In d (defs o) -> exists r, ty a' d = Some r)
     /\ (forall d v r, In d (defs o) -> live s v -> d <> v -> ty a' d = Some r -> ty a' v = Some r ->
           Pset r \/ (zero_rule c = true /\ r = 0))
-    /\ (forall x y, In (x, y) (s_io o) -> ty a' x = ty a' y).
+    /\ (forall x y, In (x, y) (s_io o) -> ty a' x = ty a' y)
+    /\ (forall d r, In d (defs o) -> ty a' d = Some r -> Pset r -> FR d r).
   Proof.
     intros o s a a' F HI0 Hall0 Hal.
     unfold allocate_sop in Hal.
@@ -134,7 +136,7 @@ Section Step.
     set (a3 := fold_left (fun a v => free_value v a) (rev (s_outs o)) a2) in *.
     set (S := live s). set (M0 := ment s). set (E := Eo o). set (pv := pairvals (s_io o)).
     pose proof (nodup_pairvals o s F) as Hndpv.
-    pose proof (of_nodup_defs c l o s F) as Hnd_defs.
+    pose proof (of_nodup_defs c FR o s F) as Hnd_defs.
     assert (Hnd_outs : NoDup (s_outs o)).
     { unfold defs, sop_results in Hnd_defs. apply NoDup_app_l in Hnd_defs. exact Hnd_defs. }
     assert (Hnd_snd : NoDup (map snd (s_io o))).
@@ -154,41 +156,41 @@ Section Step.
     (* a definition of o that is mentioned later is live later *)
     assert (Hdef_S : forall d, In d (defs o) -> S d \/ ~ M0 d).
     { intros d Hd. destruct (classic_ment s d) as [Hm|Hm]; [|right; exact Hm].
-      left. destruct Hm as [Hu|Hdf]; [|exfalso; exact (of_def c l o s F d Hd Hdf)].
-      split; [exact Hu | exact (of_def c l o s F d Hd)]. }
+      left. destruct Hm as [Hu|Hdf]; [|exfalso; exact (of_def c FR o s F d Hd Hdf)].
+      split; [exact Hu | exact (of_def c FR o s F d Hd)]. }
     (* E relates only an in/out operand with its own result *)
     assert (HE_snd : forall x y w, In (x, y) (s_io o) -> E y w -> w = x).
     { intros x y w Hin [H|H].
-      - exfalso. destruct (of_use c l o s F y (Hfst_uses y (Hpair_fst y w H))) as [Hn _].
+      - exfalso. destruct (of_use c FR o s F y (Hfst_uses y (Hpair_fst y w H))) as [Hn _].
         apply Hn. apply Hsnd_defs. exact (Hpair_snd x y Hin).
       - exact (nodup_snd_inj (s_io o) w x y Hnd_snd H Hin). }
     assert (HE_snd' : forall x y w, In (x, y) (s_io o) -> E w y -> w = x).
     { intros x y w Hin [H|H]; [exact (nodup_snd_inj (s_io o) w x y Hnd_snd H Hin)|].
-      exfalso. destruct (of_use c l o s F y (Hfst_uses y (Hpair_fst y w H))) as [Hn _].
+      exfalso. destruct (of_use c FR o s F y (Hfst_uses y (Hpair_fst y w H))) as [Hn _].
       apply Hn. apply Hsnd_defs. exact (Hpair_snd x y Hin). }
     (* phase 1: in/out groups *)
     assert (HI0' : Inv (setof S []) E (setof M0 []) a).
     { apply Inv_E_weaken with (E := Enone); [|intros x y []].
       eapply Inv_weaken; [exact HI0 | intros v [Hv|[]]; exact Hv | intros v Hv; left; exact Hv]. }
-    destruct (io_phase c t0 l S E M0 (s_io o) [] a a1 HI0') as [HI1 [Hm1 [Hio1 Hoth1]]].
+    destruct (io_phase c t0 FR FR_pre S E M0 (s_io o) [] a a1 HI0') as [HI1 [Hm1 [Hio1 Hoth1]]].
     { intros x y Hin.
       pose proof (Hpair_fst x y Hin) as Hx. pose proof (Hpair_snd x y Hin) as Hy.
-      destruct (of_use c l o s F x (Hfst_uses x Hx)) as [Hxnd Hxns].
+      destruct (of_use c FR o s F x (Hfst_uses x Hx)) as [Hxnd Hxns].
       split. { intro Heq. subst y. apply Hxnd. apply Hsnd_defs. exact Hy. }
       split. { left. exact Hin. }
       split. { right. exact Hin. }
       split. { intros w Hw. exact (HE_snd x y w Hin Hw). }
       split. { intros w Hw. exact (HE_snd' x y w Hin Hw). }
-      split. { intros [Hu|Hd]; [exact (of_io_dead c l o s F x Hx Hu) | exact (Hxns Hd)]. }
+      split. { intros [Hu|Hd]; [exact (of_io_dead c FR o s F x Hx Hu) | exact (Hxns Hd)]. }
       split. { apply Hdef_S. apply Hsnd_defs. exact Hy. }
-      split. { exact (of_io_nz c l o s F x y Hin). }
-      split. { exact (of_tied c l o s F x y Hin). }
+      split. { exact (of_io_nz c FR o s F x y Hin). }
+      split. { exact (of_tied c FR o s F x y Hin). }
       split; intros []. }
     { exact Hndpv. }
     { exact E1. }
     simpl in HI1.
     (* phase 2: outs *)
-    destruct (alloc_list_phase c t0 l S E M0 (s_outs o) pv a1 a2 HI1) as [HI2 [Hm2 [Hout2 Hoth2]]].
+    destruct (alloc_list_phase c t0 FR FR_pre S E M0 (s_outs o) pv a1 a2 HI1) as [HI2 [Hm2 [Hout2 Hoth2]]].
     { intros d Hd. apply Hdef_S. apply Houts_defs. exact Hd. }
     { exact E2. }
     (* every definition of o is allocated at a2 *)
@@ -204,16 +206,16 @@ Section Step.
     (* phase 3: frees *)
     assert (Hfree : Inv (fun v => setof S (pv ++ s_outs o) v /\ ~ In v (rev (s_outs o))) E
                         (setof M0 (pv ++ s_outs o)) a3 /\ ty a3 = ty a2).
-    { apply (free_phase c t0 l E _ (rev (s_outs o)) _ a2 HI2).
+    { apply (free_phase c t0 FR E _ (rev (s_outs o)) _ a2 HI2).
       - intros d Hd. apply in_rev in Hd. split; [apply HL2_defs; apply Houts_defs; exact Hd|].
         split; [exact (Hout2 d Hd)|].
         intros w. split; intros [H|H].
-        + destruct (of_use c l o s F d (Hfst_uses d (Hpair_fst d w H))) as [Hn _]. apply Hn. apply Houts_defs. exact Hd.
+        + destruct (of_use c FR o s F d (Hfst_uses d (Hpair_fst d w H))) as [Hn _]. apply Hn. apply Houts_defs. exact Hd.
         + unfold defs, sop_results in Hnd_defs.
           apply (NoDup_app_disjoint _ _ Hnd_defs d Hd). exact (Hpair_snd w d H).
         + unfold defs, sop_results in Hnd_defs.
           apply (NoDup_app_disjoint _ _ Hnd_defs d Hd). exact (Hpair_snd w d H).
-        + destruct (of_use c l o s F d (Hfst_uses d (Hpair_fst d w H))) as [Hn _]. apply Hn. apply Houts_defs. exact Hd.
+        + destruct (of_use c FR o s F d (Hfst_uses d (Hpair_fst d w H))) as [Hn _]. apply Hn. apply Houts_defs. exact Hd.
       - apply NoDup_rev. exact Hnd_outs. }
     destruct Hfree as [HI3 Hty3].
     (* phase 4: ins *)
@@ -221,9 +223,9 @@ Section Step.
     set (M3 := setof M0 (pv ++ s_outs o)) in *.
     assert (HI3' : Inv (setof S3 []) E (setof M3 []) a3).
     { eapply Inv_weaken; [exact HI3 | intros v [Hv|[]]; exact Hv | intros v Hv; left; exact Hv]. }
-    destruct (alloc_list_phase c t0 l S3 E M3 (s_ins o) [] a3 a' HI3') as [HI4 [Hm4 [Hin4 Hoth4]]].
+    destruct (alloc_list_phase c t0 FR FR_pre S3 E M3 (s_ins o) [] a3 a' HI3') as [HI4 [Hm4 [Hin4 Hoth4]]].
     { intros v Hv. pose proof (Hins_uses v Hv) as Hu.
-      destruct (of_use c l o s F v Hu) as [Hnd Hns].
+      destruct (of_use c FR o s F v Hu) as [Hnd Hns].
       assert (Hnout : ~ In v (rev (s_outs o))).
       { intro Hc. apply in_rev in Hc. apply Hnd. apply Houts_defs. exact Hc. }
       destruct (classic_ment s v) as [Hm|Hm].
@@ -238,7 +240,7 @@ Section Step.
     assert (Hm_all : mono a a'). { intros w q Hq. apply Hm4. apply Hm13. exact Hq. }
     assert (Hm2' : mono a2 a'). { intros w q Hq. apply Hm4. rewrite Hty3. exact Hq. }
     (* results *)
-    split; [|split; [|split; [exact Hm_all | split; [|split]]]].
+    split; [|split; [|split; [exact Hm_all | split; [|split; [|split]]]]].
     - (* the invariant at the point before o *)
       assert (HI5 : Inv (live (o :: s)) E (ment (o :: s)) a'); [|
         destruct HI5 as [Hs5 [H15 [H25 Hf5]]]; split; [exact Hs5|]; split; [exact H15|]; split; [|exact Hf5];
@@ -287,9 +289,12 @@ Section Step.
       destruct (HG2 d v r (HL2_defs d Hd) (or_introl Hv) Hne Hrd2 Hrv2) as [H|[H|[H|H]]].
       + left. exact H.
       + right. exact H.
-      + exfalso. destruct (of_use c l o s F d (Hfst_uses d (Hpair_fst d v H))) as [Hn _]. exact (Hn Hd).
-      + exfalso. apply (of_io_dead c l o s F v (Hpair_fst v d H)). exact (proj1 Hv).
+      + exfalso. destruct (of_use c FR o s F d (Hfst_uses d (Hpair_fst d v H))) as [Hn _]. exact (Hn Hd).
+      + exfalso. apply (of_io_dead c FR o s F v (Hpair_fst v d H)). exact (proj1 Hv).
     - intros x y Hin. destruct (Hio1 x y Hin) as [r [Hx Hy]].
       rewrite (Hm2' x r (Hm2 x r Hx)). rewrite (Hm2' y r (Hm2 y r Hy)). reflexivity.
+    - intros d r Hd Hr HP. destruct (Hdefs2 d Hd) as [rd Hrd2].
+      pose proof (Hm2' d rd Hrd2) as Eq. rewrite Hr in Eq. inversion Eq; subst rd.
+      destruct HI2 as [_ [_ [_ [_ H52]]]]. exact (H52 d r (HL2_defs d Hd) Hrd2 HP).
   Qed.
 End Step.
